@@ -64,6 +64,9 @@ pub fn run_case(prop: &'static str, case: &Case) -> RunOut {
             } else if msg.contains("exceeded max_steps") || msg.contains("HARNESS: quiesce") {
                 o.probes.insert("budget_exceeded".into(), 1);
                 o.harness_error = Some(format!("budget: {msg}"));
+            } else if msg.contains("Cannot allocate memory") || msg.contains("OutOfMemory") {
+                // the simulator itself ran out of address space / mappings (task stacks)
+                o.harness_error = Some(format!("HARNESS: resource exhaustion in the simulator: {msg}"));
             } else if msg.starts_with("HARNESS") {
                 o.harness_error = Some(msg);
             } else {
